@@ -172,21 +172,49 @@ def ok_value_lower_bound(prog, fn, depth=0):
 # F8 panic census
 
 # confirmed by reading: (function path regex, kind) -> (max count, reason)
+# keyed by the enclosing *function* (closures count against their function's budget)
 PANIC_TABLE = [
-    (r"^io::aspartix_reader::captured_arg$", "Option::unwrap", 1, "the group index passed by both callers exists in the names pattern (checked by aspartix-grammar|groups)"),
     (r"^utils::label::LabelSet::<T>::get_label_by_id$", "Option::unwrap", 1, "called with ids of live arguments: the ICCMA lookup passes n-1 with 1<=n<=n_arguments on the compact framework built by the same reader; the store passes ids recorded in its own indexes"),
     (r"^utils::label::LabelSet::<T>::get_label_by_id$", "Index::index", 1, "same ids, all < labels.len()"),
-    (r"^utils::label::LabelSet::<T>::get_label::\{closure#0\}$", "Index::index", 1, "map values are ids handed out by new_label (I3: label_to_id holds live ids < labels.len())"),
-    (r"^aa::aa_framework::AAFramework::<T>::new_attack$", "Index::index", 1, "ids returned by get_argument are < labels.len() = length of the index vectors (C12 index-pairing growth rule)"),
+    (r"^utils::label::LabelSet::<T>::get_label$", "Index::index", 1, "map values are ids handed out by new_label (I3: label_to_id holds live ids < labels.len())"),
+    (r"^aa::aa_framework::AAFramework::<T>::new_attack$", "Index::index", 2, "ids returned by get_argument are < labels.len() = length of the index vectors (C12 index-pairing growth rule); attack ids stored in the index lists are < attacks.len() (C12 index-pairing)"),
     (r"^aa::aa_framework::AAFramework::<T>::new_attack$", "IndexMut::index_mut", 2, "same ids"),
-    (r"^aa::aa_framework::AAFramework::<T>::new_attack::\{closure#1\}$", "Index::index", 1, "attack ids stored in the index lists are < attacks.len() (C12 index-pairing)"),
     (r"^aa::aa_framework::AAFramework::<T>::new_attack$", "Overflow:Sub", 2, "attacks.len() - 1 right after a push"),
     (r"^aa::aa_framework::AAFramework::<T>::new_attack_by_ids$", "IndexMut::index_mut", 2, "guarded by the range test at the top of the function (live count = vector length on reader-built frameworks, observation O2)"),
     (r"^aa::aa_framework::AAFramework::<T>::new_attack_by_ids$", "Overflow:Sub", 3, "attacks.len() - 1 after a push (2); `n - 1` in the error text needs n = 0, which the ICCMA reader excludes by its own range test before calling (observation O3)"),
     (r"^utils::label::LabelSet::<T>::len$", "Overflow:Sub", 1, "removed counter <= labels.len() (C12 removed-counter)"),
-    (r"^utils::label::LabelSet::<T>::new_label::\{closure#0\}$", "Overflow:Sub", 1, "labels.len() - 1 right after a push"),
+    (r"^utils::label::LabelSet::<T>::new_label$", "Overflow:Sub", 1, "labels.len() - 1 right after a push"),
     (r"Iccma23Reader as io::specs::InstanceReader<usize>>::read$", "Result::unwrap", 1, "new_attack_by_ids cannot fail: both ids passed the reader's range test 1<=k<=n (rule iccma-guards)"),
 ]
+
+
+def _capture_group_exists(prog, b, s):
+    """`captures.get(k).unwrap()`: k is a constant, or a parameter that every caller binds to a constant, not larger than 2 -
+    the number of groups of the names patterns is checked by aspartix-grammar (capture-group shape)"""
+    for o in origins(b, s.node["args"][0], transparent=()):
+        if not (o.kind == "call" and callee_matches(o.data, r"^regex::regex::string::Captures::get$")):
+            return None
+        idx = o.site.node["args"][1]
+        ks = []
+        k = op_const(idx)
+        if k is not None and "int" in k:
+            ks.append(k["int"])
+        else:
+            for oo in origins(b, idx, transparent=()):
+                if oo.kind == "param" and b.kind != "closure" and not oo.fields:
+                    css = prog.callers_of(b)
+                    if not css:
+                        return None
+                    for cs in css:
+                        kk = op_const(cs.node["args"][oo.data - 1]) if oo.data - 1 < len(cs.node["args"]) else None
+                        if kk is None or "int" not in kk:
+                            return None
+                        ks.append(kk["int"])
+                else:
+                    return None
+        if ks and all(0 <= x <= 2 for x in ks):
+            return "capture group %s of a pattern whose group count is checked by aspartix-grammar" % sorted(set(ks))
+    return None
 
 
 def panic_sources(prog, b):
@@ -435,7 +463,7 @@ def rule_panic_census(ctx):
             anchor = "%s|%s" % (b.id, kind)
             why = None
             if kind == "Option::unwrap":
-                why = _option_known_some(prog, b, s)
+                why = _option_known_some(prog, b, s) or _capture_group_exists(prog, b, s)
             elif kind == "Result::unwrap":
                 # Regex::new on a constant that compiles
                 for o in origins(b, s.node["args"][0], transparent=()):
@@ -471,7 +499,7 @@ def rule_panic_census(ctx):
             # table
             hit = None
             for i, (fre, k, mx, reason) in enumerate(PANIC_TABLE):
-                if k == kind and re.search(fre, b.path):
+                if k == kind and re.search(fre, prog.enclosing_fn(b).path):
                     hit = (i, mx, reason)
             if hit is not None:
                 used[hit[0]] = used.get(hit[0], 0) + 1
@@ -661,6 +689,12 @@ def rule_iccma_guards(ctx):
             r.check(ub, anchor, "no-upper-bound", "lookup only for k <= number of arguments", "k above the number of arguments reaches the lookup", s.loc())
 
 
+def _capture_operand(prog, clo, field):
+    from ..tags import _closure_capture_operand
+
+    return _closure_capture_operand(prog, clo, field)
+
+
 def rule_declaration_order(ctx):
     prog = ctx.prog
     r = ctx.rule(
@@ -674,13 +708,36 @@ def rule_declaration_order(ctx):
             rd = b
     if not r.require_anchor(rd, "InstanceReader::read inserting attacks by label"):
         return
-    nl = [s for s in rd.calls() if callee_matches(callee_of(s), r"^aa::arguments::ArgumentSet::new_with_labels$")]
+    # the label vector reaches ArgumentSet::new_with_labels unchanged: directly, or through a local helper / closure that
+    # receives it (e.g. `framework_from_labels(&arg_labels)`)
+    nl = []  # (site in rd whose operand is the label vector, operand)
+    for x in prog.with_closures(rd):
+        for s in x.calls():
+            c = callee_of(s)
+            if callee_matches(c, r"^aa::arguments::ArgumentSet::new_with_labels$"):
+                nl.append((x, s, s.node["args"][0]))
+                continue
+            t = prog.body_for_callee(c, x) if c else None
+            if t is not None and t.kind != "closure" and t.path.startswith("io::"):
+                for s2 in t.calls():
+                    if callee_matches(callee_of(s2), r"^aa::arguments::ArgumentSet::new_with_labels$"):
+                        for k in range(1, t.n_args + 1):
+                            if derives_from_local(t, s2.node["args"][0], k) and k - 1 < len(s.node["args"]):
+                                nl.append((x, s, s.node["args"][k - 1]))
     r.floor(len(nl), 1, "ArgumentSet::new_with_labels calls")
     vecs = set()
-    for s in nl:
+    for x, s, op in nl:
         named = set()
-        for o in origins(rd, s.node["args"][0]):
-            if o.site is not None:
+        os_ = list(origins(x, op))
+        # through a by-reference capture of the reader function's vector
+        more = []
+        for o in os_:
+            if o.kind == "upvar":
+                par, cop = _capture_operand(prog, x, o.data)
+                if par is rd and cop is not None:
+                    more += list(origins(rd, cop))
+        for o in os_ + more:
+            if o.site is not None and o.body is rd:
                 dl = o.site.node["dst"]["l"]
                 if rd.local_name(dl) and rd.local_ty(dl).startswith("alloc::vec::Vec<"):
                     named.add(dl)
